@@ -146,7 +146,7 @@ def _combine3(a: int, l1: int, g1: int, l2: int, g2: int, l3: int, perm: int) ->
     k1 = a; k2 = a + l1 + g1; k3 = k2 + l2 + g2
     blocks = [(k1, l1), (k2, l2), (k3, l3)]
     orders = [(0, 1, 2), (0, 2, 1), (1, 0, 2), (1, 2, 0), (2, 0, 1), (2, 1, 0)]
-    r = H.DigitalRFReader.__new__(H.DigitalRFReader)
+    r = chload.new_obj(H.DigitalRFReader)
     got = list(r._combine_blocks(_D([blocks[i] for i in orders[perm]]), len_only=True).items())
     if g1 == 0 and g2 == 0: exp = [(k1, l1 + l2 + l3)]
     elif g1 == 0: exp = [(k1, l1 + l2), (k3, l3)]
@@ -170,7 +170,7 @@ def _combine2_arrays(a: int, l1: int, g1: int, l2: int, swap: bool) -> bool:
     old = H.np
     H.np = NP
     try:
-        r = H.DigitalRFReader.__new__(H.DigitalRFReader)
+        r = chload.new_obj(H.DigitalRFReader)
         items = [(k2, B), (k1, A)] if swap else [(k1, A), (k2, B)]
         got = list(r._combine_blocks(_D(items), len_only=False).items())
     finally:
@@ -185,7 +185,7 @@ def _combine_witness(a: int, l1: int, g1: int, l2: int) -> bool:
     pre: a >= 0 and 1 <= l1 <= 1000 and 1 <= l2 <= 1000 and 0 <= g1 <= 1000
     post: _
     """
-    r = H.DigitalRFReader.__new__(H.DigitalRFReader)
+    r = chload.new_obj(H.DigitalRFReader)
     got = list(r._combine_blocks(_D([(a, l1), (a + l1 + g1, l2)]), len_only=True).items())
     return len(got) != 1          # reachability twin: a merge must be reachable
 
@@ -204,7 +204,7 @@ class _Chan:
 
 
 def _mk_reader(ntop, nsub, log):
-    r = H.DigitalRFReader.__new__(H.DigitalRFReader)
+    r = chload.new_obj(H.DigitalRFReader)
     props = {'num_subchannels': nsub, 'subdir_cadence_secs': 3600, 'file_cadence_millisecs': 1000, 'samples_per_second': 'SPS',
              'sample_rate_numerator': 'NUM', 'sample_rate_denominator': 'DEN'}
     r._channel_dict = {'ch': _Chan([_Top(log) for _ in range(ntop)], props)}
@@ -255,7 +255,7 @@ def _read_all_dirs(order: int, lo: int, hi: int, len_only: bool) -> bool:
     perms = [(0, 1, 2), (0, 2, 1), (1, 0, 2), (1, 2, 0), (2, 0, 1), (2, 1, 0)]
     blocks = [[(0, 10), (20, 10)], [(10, 10)], []]
     log = []
-    r = H.DigitalRFReader.__new__(H.DigitalRFReader)
+    r = chload.new_obj(H.DigitalRFReader)
     props = {'num_subchannels': 1, 'subdir_cadence_secs': 3600, 'file_cadence_millisecs': 1000, 'samples_per_second': 'SPS',
              'sample_rate_numerator': 'NUM', 'sample_rate_denominator': 'DEN'}
     r._channel_dict = {'ch': _Chan([_TopData(log, blocks[i]) for i in perms[order]], props)}
@@ -418,7 +418,7 @@ def _split_invariance(rows: List[Tuple[int, int]], n: int, a: int, b: int, c: in
     whole = Rec(); t._read(a, c, ['f'], whole, len_only=True)
     left = Rec(); t._read(a, b, ['f'], left, len_only=True)
     right = Rec(); t._read(b + 1, c, ['f'], right, len_only=True)
-    r = H.DigitalRFReader.__new__(H.DigitalRFReader)
+    r = chload.new_obj(H.DigitalRFReader)
     m1 = list(r._combine_blocks(_D(whole.items_), len_only=True).items())
     m2 = list(r._combine_blocks(_D(left.items_ + right.items_), len_only=True).items())
     return m1 == m2
@@ -502,7 +502,7 @@ def _bounds_merge(f1: Optional[int], n1: int, f2: Optional[int], n2: int, f3: Op
     class T:
         def __init__(s, f, n): s.b = (f, None if f is None else f + n)
         def _get_bounds(s): return s.b
-    r = H.DigitalRFReader.__new__(H.DigitalRFReader)
+    r = chload.new_obj(H.DigitalRFReader)
     tops = [T(f1, n1), T(f2, n2), T(f3, n3)]
     r._channel_dict = {'ch': _Chan(tops, {})}
     got = r.get_bounds('ch')
@@ -557,7 +557,7 @@ def _vector_raw(start: int, vlen: int, nblocks: int, got_len: int, nsub: int, su
     # blocks to the requested range (R1), hence off + got_len <= vlen in that case
     # read() is replaced by a stub returning `nblocks` blocks, the first of got_len samples; the vector read must return the block iff
     # there is exactly one block and it has exactly vlen samples (shape (vlen,) or (vlen, nsub)), and raise IOError (only) otherwise
-    r = H.DigitalRFReader.__new__(H.DigitalRFReader)
+    r = chload.new_obj(H.DigitalRFReader)
     calls = []
     shape = (got_len, nsub) if sub is None else (got_len,)
     z = _Arr(shape)
@@ -585,7 +585,7 @@ def _get_dmd_default(found: bool) -> bool:
     class DM:
         class DigitalMetadataReader:
             def __init__(self, d, accept_empty=True): made.append((d, accept_empty))
-    r = H.DigitalRFReader.__new__(H.DigitalRFReader)
+    r = chload.new_obj(H.DigitalRFReader)
     r._channel_metadata_reader = {}; r._top_level_dir_dict = {'/top': None}
     old = (H.digital_metadata, H.os.access)
     H.digital_metadata = DM; H.os.access = lambda p, m: found
